@@ -68,3 +68,4 @@ Print Assumptions C18_inverse_ntt_exact.
 Print Assumptions C18_mat_vec_mul.
 Print Assumptions C18_pipeline.
 Print Assumptions C18_tables.
+Check F204.Proofs.KernelAgree.kernels_agree.
